@@ -4,6 +4,8 @@
 //                          process (`vharn fn` + `parse_raw`) on a thread with tokio's default worker
 //                          stack (2 MiB) under a wall-clock limit, so that a stack overflow is reported
 //                          as ABORT and a non-terminating parse as TIMEOUT instead of killing the run.
+//   parse_cmdt <ms> <hex>  the same, always in a child, with a per-case time budget (TIMEOUT beyond it): the
+//                          step criterion for inputs on which the grammar used to take exponential time.
 //   parse_raw <hex>        parse on a 2 MiB thread in this process (used by the child).
 //   parse_json <hex>       HTTP JSON command: serde_json -> JsonCommand -> Command.
 //   parse_disp <hex>       parse, then dispatch_command on an in-process engine (one per process,
@@ -160,7 +162,9 @@ fn risky(b: &[u8]) -> bool {
 
 fn limit_ms() -> u64 { std::env::var("VERIF_PARSE_LIMIT_MS").ok().and_then(|v| v.parse().ok()).unwrap_or(4000) }
 
-fn in_child(line: &str) -> String {
+fn in_child(line: &str) -> String { in_child_lim(line, limit_ms()) }
+
+fn in_child_lim(line: &str, lim_ms: u64) -> String {
     let exe = match std::env::current_exe() { Ok(e) => e, Err(_) => return "NOCHILD".into() };
     let mut ch = match Proc::new(exe).arg("fn").stdin(Stdio::piped()).stdout(Stdio::piped()).stderr(Stdio::null()).spawn() {
         Ok(c) => c, Err(_) => return "NOCHILD".into() };
@@ -173,7 +177,7 @@ fn in_child(line: &str) -> String {
     let mut so = ch.stdout.take().unwrap();
     let reader = std::thread::spawn(move || { let mut out = String::new(); let _ = so.read_to_string(&mut out); out });
     let t0 = Instant::now();
-    let lim = Duration::from_millis(limit_ms());
+    let lim = Duration::from_millis(lim_ms);
     loop {
         match ch.try_wait() {
             Ok(Some(st)) => {
@@ -197,6 +201,11 @@ pub fn run(t: &[String]) -> String {
             let b = unhex(&t[1]);
             if risky(&b) { return in_child(&format!("parse_raw {}", t[1])); }
             match String::from_utf8(b) { Ok(s) => parse_line(&s), Err(_) => "BADUTF8".into() }
+        }
+        // parse_cmdt <budget ms> <hex>: always in a child, with this case's own time budget
+        "parse_cmdt" => {
+            let ms: u64 = t[1].parse().unwrap_or(1000);
+            in_child_lim(&format!("parse_raw {}", t[2]), ms)
         }
         "parse_raw" => {
             match String::from_utf8(unhex(&t[1])) { Ok(s) => parse_on_thread(s), Err(_) => "BADUTF8".into() }
